@@ -65,6 +65,7 @@ class Profile:
         self.route_p = 0.0             # probability that an act block uses a non-default construction route
         self.each_p = 0.0              # probability of emod / econd lines in a block
         self.preset_p = 0.0            # probability that an item is a preset
+        self.rich_field_p = 0.3        # probability that a preset field is not a plain key (see PROTOCOL §3.1)
         self.inject_first_p = 0.0
         self.mask_choices = [1, 2, 4, 8, 3, 6, 2, 2, 1]
         self.mbtns = [0, 1]
@@ -220,10 +221,27 @@ class AppGen:
                         if route not in (4, 5) and r.random() < p.preset_p:
                             kind = r.choice(["cardinal", "cardinal", "bidir", "stick"]) if pads_used else r.choice(["cardinal", "bidir"])
                             def km():
+                                rr = r.random()
+                                if rr < p.rich_field_p:
+                                    # rich preset fields: nested stick preset, raw gamepad axis / button, key with its own swizzle
+                                    ch = r.choice(["y", "y", "s", "x", "b"]) if pads_used else "y"
+                                    if ch == "s":
+                                        side = r.choice([0, 1])
+                                        self.bound_inputs.append(f"padaxis {2 * side}")
+                                        self.bound_inputs.append(f"padaxis {2 * side + 1}")
+                                        return f"s{side}"
+                                    if ch == "x":
+                                        x = r.randrange(4)
+                                        self.bound_inputs.append(f"padaxis {x}")
+                                        return f"x{x}"
+                                    if ch == "b":
+                                        b = r.randrange(8)
+                                        self.bound_inputs.append(f"padbtn {b}")
+                                        return f"b{b}"
                                 k = r.choice(p.keys)
                                 m = r.choice([0, 0] + p.mask_choices[:2]) if r.random() < p.modmask_p else 0
                                 self.bound_inputs.append(f"key {k} {m}")
-                                return f"{k}:{m}"
+                                return (f"y{k}:{m}" if rr < p.rich_field_p else f"{k}:{m}")
                             if kind == "cardinal":
                                 lines.append("preset cardinal " + " ".join(km() for _ in range(4)))
                             elif kind == "bidir":
